@@ -2,7 +2,8 @@
 
 R15a single, append-only time source. RuntimeRecord._add_state is called only from Tracking._add_record_state and
      receives Tracking.tick_time / tick_number (whose only writers are Tracking.__init__ and Tracking.tick, which
-     copies its parameters); RuntimeRecord.states is only ever appended to (no insert/sort/remove/reassignment
+     copies the tick number and advances the time monotonically - `max(self.tick_time, <parameter>)`: tick time is wall-clock
+     time and can be set back); RuntimeRecord.states is only ever appended to (no insert/sort/remove/reassignment
      outside constructors and clone), so the states of an invocation are in engine-time order whenever tick times
      are; in _get_record_runlog_items item.start is assigned only in the first-state branch and item.end only from
      the same loop variable's state_time, and the per-invocation ordering check with raise_if_unordered=True
@@ -54,6 +55,18 @@ R15j Cancelled only for what has not concluded: the part of _cancel_command for 
      requests whose command completed (or failed) and was finalized *earlier in the same tick* - they stay in the executing list until
      the commit at the end of the tick. Recording Cancelled for them puts a second conclusive state behind Completed: every
      mark_cancelled of that part is dominated by the false outcome of the conclusive-state predicate on the request's instance id.
+R15k the choke point: whatever the callers do, an invocation that has concluded accepts no further state. RuntimeRecord._add_state is
+     the only function that appends to a record's states (R15a), and every path to that append passes a scan of the record's
+     states that returns when a state of the *same instance id* is conclusive (the tested set contains Completed, Failed and
+     Cancelled). This decides "no state behind a conclusive one" - the condition under which the generator raises for the rest of
+     the run - for every caller, order and history at once; R15f/R15i/R15j keep deciding *which* conclusive state it is.
+R15l Watch and Alarm agree on cancellation (siblings): in visit_WatchNode and in visit_AlarmNode the awaiting-condition state is
+     recorded only under `not node.cancelled`, and inside the await loop the activation attempt is under `not node.cancelled`
+     too - a cancelled Alarm that goes on waiting records AwaitingCondition behind Cancelled and later runs its body.
+R15m a body is reset together with its handlers: every `X.reset_runtime_state(recursive=True)` of a node with a body in the interpreter
+     (macro call, Alarm re-arm) is dominated by the removal of the interrupt handlers registered for X's descendants
+     (`_abort_block_interrupts(X)` or a loop over `X.get_child_nodes(recursive=True)` calling `_unregister_interrupt`): a handler
+     left behind continues in the middle of the reset body and records its states on the items of the new invocation.
 """
 from __future__ import annotations
 
@@ -267,9 +280,23 @@ def run(ctx) -> None:
                 inst = f"{fn.short}: {norm(st)}"
                 if fn.cls is trk and fn.name == "__init__":
                     ctx.ok("R15a", inst, trivial=True)
-                elif fn is ttick and isinstance(v, ast.Name) and v.id in params[1:] and \
-                        params.index(v.id) == {"tick_time": 1, "tick_number": 2}.get(t.attr, -1):
+                elif fn is ttick and t.attr == "tick_number" and isinstance(v, ast.Name) and v.id in params[1:] and \
+                        params.index(v.id) == 2:
                     ctx.ok("R15a", inst)
+                elif fn is ttick and t.attr == "tick_time" and isinstance(v, ast.Call) and isinstance(v.func, ast.Name) \
+                        and v.func.id == "max" and sorted(norm(a) for a in v.args) == sorted([f"{t.value.id}.tick_time", params[1]]):
+                    # the tick time is wall-clock time and may be set back; the time of a state must not be earlier than
+                    # that of the state before it (the generator raises on an unordered invocation, an item must not end
+                    # before it starts)
+                    ctx.ok("R15a", inst)
+                elif fn.cls is trk and t.attr == "tick_time" and _monotone_write(fn, st, t, v):
+                    # another writer inside Tracking that can only move the time forward (guarded by `v > self.tick_time`, or
+                    # max(...)) keeps the order of state times as long as tick() itself is monotone (checked above)
+                    ctx.ok("R15a", inst)
+                elif fn is ttick and t.attr == "tick_time" and isinstance(v, ast.Name) and v.id == params[1]:
+                    ctx.fail("R15a", fn, st, inst, "the state clock follows the wall clock backwards: after a clock step (NTP, operator) a "
+                             "Completed is stamped earlier than its Started, the ordering check of the run-log generator raises in every "
+                             "later tick (or, without asserts, the item ends before it starts)")
                 else:
                     ctx.fail("R15a", fn, st, inst, "Tracking's clock written outside Tracking.tick / not from its parameter: record "
                              "state times are no longer the engine tick time of the tick they happen in")
@@ -921,6 +948,130 @@ def run(ctx) -> None:
                      "by a second conclusive state, after which get_runlog() raises for the rest of the run", pth)
     _r15i(ctx, prog, cancel)
     _r15j(ctx, prog)
+    _r15klm(ctx, prog)
+
+
+def _monotone_write(fn, st, t, v) -> bool:
+    cur = f"{norm(t.value)}.tick_time"
+    if isinstance(v, ast.Call) and isinstance(v.func, ast.Name) and v.func.id == "max" and cur in [norm(a) for a in v.args]:
+        return True
+    for anc in _ancestors_of(fn, st):
+        if isinstance(anc, ast.If) and st in anc.body and isinstance(anc.test, ast.Compare) and len(anc.test.ops) == 1:
+            l, r, op = norm(anc.test.left), norm(anc.test.comparators[0]), anc.test.ops[0]
+            if (isinstance(op, (ast.Gt, ast.GtE)) and l == norm(v) and r == cur) or (isinstance(op, (ast.Lt, ast.LtE)) and l == cur and r == norm(v)):
+                return True
+    return False
+
+
+def _r15klm(ctx, prog):
+    from ..util import cfg_of, call_attr
+    ctx.rule("R15k", "an invocation that has concluded accepts no further state (checked where states are appended)")
+    ctx.rule("R15l", "Watch and Alarm visitors test node.cancelled before recording AwaitingCondition and before each activation attempt")
+    ctx.rule("R15m", "a body is reset only after the handlers of its descendants were removed")
+    rr = prog.cls(f"{RL}:RuntimeRecord")
+    add = rr.find_method("_add_state")
+    if add is None:
+        raise AnchorError("RuntimeRecord._add_state missing")
+    ctx.analysed(add)
+    g = cfg_of(add)
+    appends = [n for n in g.nodes if any(call_attr(c) in ("append", "insert", "extend") and norm(c.func.value) == "self.states" for c in n.calls())]
+    if not appends:
+        raise AnchorError("_add_state: no write to self.states")
+    params = [a.arg for a in add.node.args.args]
+    id_par = params[1]
+
+    def _guard_loop(n) -> bool:
+        """for st in self.states: if st.instance_id == <id> and st.state_name in [conclusive...]: ... return"""
+        if n.kind != "for" or norm(n.ast.iter) != "self.states" or not isinstance(n.ast.target, ast.Name):
+            return False
+        v = n.ast.target.id
+        for st in n.ast.body:
+            if not isinstance(st, ast.If) or not any(isinstance(x, ast.Return) for x in st.body):
+                continue
+            conj = st.test.values if isinstance(st.test, ast.BoolOp) and isinstance(st.test.op, ast.And) else [st.test]
+            same_id = any(isinstance(c, ast.Compare) and isinstance(c.ops[0], ast.Eq)
+                          and {norm(c.left), norm(c.comparators[0])} == {f"{v}.instance_id", id_par} for c in conj)
+            members = set()
+            for c in conj:
+                if isinstance(c, ast.Compare) and isinstance(c.ops[0], ast.In) and norm(c.left) == f"{v}.state_name" \
+                        and isinstance(c.comparators[0], (ast.List, ast.Tuple, ast.Set)):
+                    members = {norm(e).split(".")[-1] for e in c.comparators[0].elts}
+                if isinstance(c, ast.Call) and "conclusive" in norm(c.func):
+                    members = {"Completed", "Failed", "Cancelled"}
+            if same_id and {"Completed", "Failed", "Cancelled"} <= members and len(conj) == 2:
+                return True
+        return False
+    guards = [n for n in g.nodes if _guard_loop(n)]
+    for a in appends:
+        inst = "_add_state: the append is reached only through the scan for a conclusive state of the same invocation"
+        if guards and any(g.dominates(gd, a) for gd in guards):
+            ctx.ok("R15k", inst)
+        else:
+            ctx.fail("R15k", add, a.ast, inst, "a state is appended to an invocation that already has a conclusive state: the run-log "
+                     "generator closes an item at its first conclusive state and raises on any later state of that invocation, in "
+                     "every tick for the rest of the run - and callers do reach this (a cancelled Alarm going on to await its "
+                     "condition, End block aborting an Alarm that completed in the previous tick, a stale handler of a macro's "
+                     "earlier call)")
+    # ---- R15l
+    for vn in ("visit_WatchNode", "visit_AlarmNode"):
+        f = prog.func(f"{PI}.{vn}")
+        ctx.analysed(f)
+        gv = cfg_of(f)
+        npar = f.node.args.args[1].arg
+
+        def _not_cancelled(n) -> bool:
+            return any(norm(t) == f"{npar}.cancelled" and not pol for t, pol in gv.conditions_at(n))
+        marks = [n for n in gv.nodes if any(call_attr(c) == "mark_awaiting_condition" for c in n.calls())]
+        tries = [n for n in gv.nodes if any(call_attr(c) == "_try_activate_node" for c in n.calls())]
+        if not marks or not tries:
+            raise AnchorError(f"{vn}: mark_awaiting_condition / _try_activate_node not found")
+        # the activation helper may refuse a cancelled node itself
+        ta = prog.func(f"{PI}._try_activate_node")
+        gta = cfg_of(ta)
+        tpar = ta.node.args.args[1].arg
+        acts = [n for n in gta.nodes if n.kind == "stmt" and isinstance(n.ast, ast.Assign) and norm(n.ast.targets[0]) == f"{tpar}.activated"]
+        callee_guard = bool(acts) and all(any(norm(t) == f"{tpar}.cancelled" and not pol for t, pol in gta.conditions_at(a)) for a in acts)
+        for n, what in [(m, "AwaitingCondition is recorded") for m in marks] + [(t, "the activation attempt is made") for t in tries]:
+            inst = f"{vn}: {what} only under `not {npar}.cancelled`"
+            if _not_cancelled(n) or (callee_guard and n in tries):
+                ctx.ok("R15l", inst)
+            else:
+                ctx.fail("R15l", f, n.ast, inst, f"`{n.text()[:60]}` is reached although the user cancelled the item (its sibling visitor tests "
+                         f"{npar}.cancelled here): the state lands behind Cancelled and the cancelled instruction still runs its body "
+                         "when the condition comes true")
+    # ---- R15m
+    n_reset = 0
+    for f in prog.cls(PI).methods.values():
+        gv = None
+        for c in walk_no_nested(f.node):
+            if not (isinstance(c, ast.Call) and call_attr(c) == "reset_runtime_state" and any(
+                    k.arg == "recursive" and isinstance(k.value, ast.Constant) and k.value.value is True for k in c.keywords)):
+                continue
+            X = norm(c.func.value)
+            if X.endswith("_program"):
+                continue    # the whole program is reset only when a run starts: no handlers exist
+            n_reset += 1
+            gv = gv or cfg_of(f)
+            rn = gv.node_containing(c)
+            inst = f"{f.name}: handlers of {X}'s descendants are removed before `{norm(c)}`"
+
+            def _removes(n) -> bool:
+                for cc in n.calls():
+                    if call_attr(cc) == "_abort_block_interrupts" and cc.args and norm(cc.args[0]) == X:
+                        return True
+                if n.kind == "for" and f"{X}.get_child_nodes(recursive=True)" in norm(n.ast.iter) and any(
+                        isinstance(y, ast.Call) and call_attr(y) == "_unregister_interrupt" for y in ast.walk(n.ast)):
+                    return True
+                return False
+            rem = [n for n in gv.nodes if _removes(n)]
+            if rn and rem and any(gv.dominates(r, rn[0]) for r in rem):
+                ctx.ok("R15m", inst)
+            else:
+                ctx.fail("R15m", f, c, inst, "the body is reset while Watch/Alarm handlers registered by its previous invocation are still "
+                         "alive: such a handler continues in the middle of the reset body, its Completed lands on the invocation the "
+                         "new caller has just created, and the new caller's states follow behind it")
+    if n_reset < 2:
+        raise AnchorError(f"only {n_reset} body resets found in PInterpreter (floor 2)")
 
 
 def _r15j(ctx, prog):
